@@ -1,9 +1,10 @@
 /-
   C07 — buffered channel configuration reaches the device exactly at write time.
-  STATEMENTS (to be proved; file moves to NxsModel/Props/C07.lean when no `sorry` is left).
+  Property theorems only (helper lemmas in Lemmas/Config.lean).
   Histories are arbitrary lists of `Config.Op`; the device reacts to the bytes the client emits.
 -/
 import NxsModel.Config
+import NxsModel.Lemmas.Config
 namespace Nxs.C07
 open Nxs Nxs.Config
 
@@ -25,9 +26,21 @@ def isWrite : Op → Bool
 def after (d0 : Device) (flags : Nat) (ops : List Op) : Client × Device × List StepOut :=
   run (Client.init d0 flags) d0 ops
 
+/-- bridge to the per-op form used by the helper lemmas -/
+private theorem AllAck.ops {ops : List Op} (h : AllAck ops) : ∀ op ∈ ops, AckOp op := by
+  induction ops with
+  | nil => intro _ hm; nomatch hm
+  | cons op r ih =>
+    have hr : AllAck r := by cases op <;> first | exact h | exact h.2.2
+    intro op' hm
+    rcases List.mem_cons.mp hm with rfl | hm
+    · cases op' <;> first | trivial | exact ⟨h.1, h.2.1⟩
+    · exact ih hr op' hm
+
 /-- no call other than a write sends anything or changes anything at the device -/
 theorem setters_silent (c : Client) (d : Device) (op : Op) (h : isWrite op = false) :
-    (step c d op).2.1 = d ∧ (step c d op).2.2.sent = [] := sorry
+    (step c d op).2.1 = d ∧ (step c d op).2.2.sent = [] :=
+  step_silent c d op (fun a b e => by rw [e] at h; exact Bool.noConfusion h)
 
 /-- once a write has returned, the device's enable (and, with divider support, divider) state
     equals the state requested so far and equals what the client reports (`ch_is_enabled`,
@@ -37,25 +50,29 @@ theorem write_syncs (d0 : Device) (flags : Nat) (ops : List Op) (hd : WFDev d0) 
     r.2.1.en = r.1.enNew ∧ r.1.enNow = r.1.enNew ∧ r.1.copyEn = r.1.enNew ∧
     (Info.divSupported flags = true →
       r.2.1.div = r.1.divNew ∧ r.1.divNow = r.1.divNew ∧ r.1.copyDiv = r.1.divNew) ∧
-    (Info.divSupported flags = false → r.2.1.div = d0.div) := sorry
+    (Info.divSupported flags = false → r.2.1.div = d0.div) :=
+  c07_write_syncs d0 flags ops hd ha.ops
 
 /-- at every point of an acknowledged history the client's report equals the device's state -/
 theorem reported_matches_device (d0 : Device) (flags : Nat) (ops : List Op) (hd : WFDev d0) (ha : AllAck ops) :
     let r := after d0 flags ops
     r.1.enNow = r.2.1.en ∧ r.1.copyEn = r.2.1.en ∧
-    (Info.divSupported flags = true → r.1.divNow = r.2.1.div ∧ r.1.copyDiv = r.2.1.div) := sorry
+    (Info.divSupported flags = true → r.1.divNow = r.2.1.div ∧ r.1.copyDiv = r.2.1.div) :=
+  c07_reported d0 flags ops hd ha.ops
 
 /-- writing again without new requests changes nothing (device and client state) -/
 theorem write_idempotent (d0 : Device) (flags : Nat) (ops : List Op) (hd : WFDev d0) (ha : AllAck ops) :
     let r1 := after d0 flags (ops ++ [.write .ack .ack])
     let r2 := after d0 flags (ops ++ [.write .ack .ack, .write .ack .ack])
-    r2.2.1 = r1.2.1 ∧ r2.1 = r1.1 := sorry
+    r2.2.1 = r1.2.1 ∧ r2.1 = r1.1 :=
+  c07_idempotent d0 flags ops hd ha.ops
 
 /-- on a device that does not advertise divider support no divider request is ever sent
     (frame id byte 7 never appears), whatever the history and the outcomes -/
 theorem no_div_without_support (d0 : Device) (flags : Nat) (ops : List Op) (hd : WFDev d0)
     (hs : Info.divSupported flags = false) :
-    ∀ o ∈ (after d0 flags ops).2.2, ∀ f ∈ o.sent, f.getD 3 0 ≠ 7 := sorry
+    ∀ o ∈ (after d0 flags ops).2.2, ∀ f ∈ o.sent, f.getD 3 0 ≠ 7 :=
+  c07_no_div d0 flags ops hd hs
 
 /-- non-vacuity: a concrete history -/
 example : (after ⟨[false, true, false], [0, 0, 200]⟩ 3
